@@ -122,6 +122,23 @@ func checkExactFns(x decOperand) string {
 	if !ratEq(arr[11], xr) {
 		return fmt.Sprintf("toFloat(toString(%s)) = %s, want %s", xl, obs.Show(arr[11]), ref.DecString(xr))
 	}
+	// the same builtins applied to one number held in a local: each sees x, and x is still x afterwards
+	f2 := fmt.Sprintf("$x = %s, [abs($x), ceil($x), floor($x), round($x), roundBank($x), toInt($x), max($x, $x), min($x), finite($x), sqrt(abs($x)), $x, floor($x), ceil($x), roundBank($x)]", xl)
+	arr2, msg2 := evalArr(f2, nil)
+	if msg2 != "" {
+		return msg2
+	}
+	for _, pair := range [][2]int{{0, 0}, {1, 1}, {2, 2}, {3, 3}, {4, 4}, {11, 2}, {12, 1}, {13, 4}} {
+		a, b := arr2[pair[0]], arr[pair[1]]
+		ra, oka := obs.Rat(a)
+		rb, okb := obs.Rat(b)
+		if !oka || !okb || ra.Cmp(rb) != 0 {
+			return fmt.Sprintf("with $x = %s, element %d of %s is %s, but on the literal the same builtin gives %s", xl, pair[0], f2, obs.Show(a), obs.Show(b))
+		}
+	}
+	if !ratEq(arr2[10], xr) || !ratEq(arr2[6], xr) || !ratEq(arr2[7], xr) || !ratEq(arr2[8], xr) {
+		return fmt.Sprintf("with $x = %s: after the numeric builtins were applied to $x, [max($x,$x), min($x), finite($x), $x] = [%s, %s, %s, %s], want %s each", xl, obs.Show(arr2[6]), obs.Show(arr2[7]), obs.Show(arr2[8]), obs.Show(arr2[10]), ref.DecString(xr))
+	}
 	return ""
 }
 
